@@ -48,7 +48,9 @@ ASSUMPTIONS = ["filter callbacks are pure (they only inspect their argument)",
 # names
 
 SINGLE = ["a", "b", "c", "p", "k", "g", "t", "é"]
-MULTI = ["pkg", "ab", "kg", "libfoo", "a-b", "pp", "tt", "été"]
+# (names with blanks arise from irregular spacing in a tag file: "a,  b: x" names the package " b";
+#  whatever the reader makes of them, both indexes must agree on it)
+MULTI = ["pkg", "ab", "kg", "libfoo", "a-b", "pp", "tt", "été", " b", " lead", "in ner", "\tq"]
 TAGS = ["t", "u", "x", "role::program", "role::shared-lib", "use::editing", "use::", "ab", "a:b",
         "f::a", "::x", "a", "p", "role", "uu"]
 ABSENT = "zz-absent"
@@ -489,7 +491,9 @@ def run_hist(case):
             order = None
             err = None
             if op.get("obj") is not None and op["obj"] >= len(objs):
-                return {"driver_error": "history names an object that does not exist"}
+                # an earlier derivation raised (recorded in its step) and created no object, so the generator's
+                # numbering dangles from here on: the history ends here (emit zips operations with steps)
+                break
             if op["op"] == "facet_collection":
                 order = list(objs[op["obj"]].iter_packages())
             try:
